@@ -17,6 +17,10 @@ CHECKS = {
           "For every ordered pair: and/or truth tables, symmetry of =, != as negation of =, mirror laws of < > <= >=; for pairs of one ordered kind trichotomy and <= as (< or =); for every ordered triple of one ordered kind agreement of between, the four interval forms and the conjunction of comparisons. The universes are enumerated completely.",
           "The laws relate two observations of the implementation, so no reference model is trusted (only the and/or truth tables). Values outside the alphabets and lattices are not covered.",
           "DESIGN.md §4 C09"),
+  "C10": ("exhaustive enumeration of name sets (every single name, every pair, adversarial / all triples of a catalogue of multi-word and symbol-joined names) x expression positions x spellings, with a renaming-invariance oracle driven by a reference longest-match tokeniser",
+          "Every name of every set is placed, in every spelling, in every expression position of the template list (operands, arguments, if/for/some/every/filter parts, context entries, path heads, two-name operator forms, and as names introduced by context entries, parameters and iteration variables). The text is evaluated against a scope binding the set; a reference tokeniser replaces each longest bound name by its value literal (or a fresh simple name) and the implementation must give the same value for that text.",
+          "Trusts the 60-line reference tokeniser in engines/c10.rs as the statement of the longest-match rule; values of the substituted texts come from the implementation (C01's subject). Name words outside the six-word alphabet and names longer than four parts are outside the bound.",
+          "DESIGN.md §4 C10"),
   "C13": ("bounded exhaustive enumeration: scope text before/after parse, prepare and repeated evaluation for every expression of the C01 space x 3 scope shapes; explicit enumeration of every operation sequence (prepared evaluator x scope, and evaluate_invocable x input on a shared ModelEvaluator) up to length 3 (quick) / 4 (thorough) with a differential oracle against pristine objects",
           "Every expression of the bounded fragment is parsed, prepared and evaluated three times in scopes of depth 1-3; the rendering of the caller's scope must be identical before and after each step and the three values equal. Every sequence of evaluations up to the length bound over 45 FEEL operations and 15 model operations is executed on fresh objects; each result must equal the result of the same operation on pristine objects and every scope / input context must read as initially.",
           "Observes state through Scope's and FeelContext's textual rendering and through results; hidden state that never influences a result within the length bound is not observable. Sequences are not deduplicated by state (the observable state is constant when the property holds, so deduplication would make the search vacuous).",
